@@ -794,13 +794,24 @@ static char *detect_include_guard(Token *tok) {
       continue;
     }
 
-    if (equal(tok->next, "endif") && tok->next->next->kind == TK_EOF)
-      return macro;
+    // A nested conditional is skipped as a whole, up to its #endif.
+    if (equal(tok->next, "if") || equal(tok->next, "ifdef") ||
+        equal(tok->next, "ifndef")) {
+      tok = skip_cond_incl2(tok->next->next);
+      continue;
+    }
 
-    if (equal(tok, "if") || equal(tok, "ifdef") || equal(tok, "ifndef"))
-      tok = skip_cond_incl(tok->next);
-    else
-      tok = tok->next;
+    // This #endif closes the #ifndef of the first line. The file is
+    // guarded only if nothing follows it.
+    if (equal(tok->next, "endif"))
+      return tok->next->next->kind == TK_EOF ? macro : NULL;
+
+    // An #elif or #else of the first #ifndef selects text when the
+    // macro is defined, so the file cannot be skipped then.
+    if (equal(tok->next, "elif") || equal(tok->next, "else"))
+      return NULL;
+
+    tok = tok->next;
   }
   return NULL;
 }
